@@ -395,8 +395,15 @@ class Analysis:
                     return b + a.scale(sz) if sz else None
                 return a + b
             if e.op == "-" and a is not None and b is not None:
-                if self._ty(e.kid(0).ty).get("kind") == "ptr":
+                ta, tb = self._ty(e.kid(0).ty), self._ty(e.kid(1).ty)
+                if ta.get("kind") == "ptr" and tb.get("kind") == "ptr":
+                    # difference of two byte pointers (a signed count)
+                    if self._ty(ta.get("pointee", "")).get("size") == 1 and self._ty(tb.get("pointee", "")).get("size") == 1:
+                        return a - b
                     return None
+                if ta.get("kind") == "ptr":
+                    sz = self._ty(ta.get("pointee", "")).get("size")
+                    return a - b.scale(sz) if sz else None
                 if self._is_unsigned(e.ty) and not self.holds(st, ">=", a, b):
                     return None
                 return a - b
@@ -476,6 +483,13 @@ class Analysis:
     def transfer(self, st, e):
         if st is None:
             return None
+        if e.cls == "DeclStmt" and e.decls and any(isinstance(d, dict) and d.get("init") for d in e.decls):
+            out = set()
+            for P in st:
+                r = self._declinit(P, e)
+                if r is not None:
+                    out.add(r)
+            return self._norm_disj(out)
         if not (e.cls == "CallExpr" or e.is_assign or e.is_incdec):
             return st
         self._budget()
@@ -510,6 +524,44 @@ class Analysis:
             out.discard(b)
             out.add(self._joinP(a, b))
         return frozenset(out)
+
+    def _declinit(self, st, e):
+        """`T x = init;` is an assignment to a fresh variable."""
+        cs = list(st)
+        for d in e.decls:
+            if not (isinstance(d, dict) and d.get("init")) or d.get("kind") not in ("local",):
+                continue
+            try:
+                rhs = self.f.elem(d["init"])
+            except (KeyError, IndexError, TypeError):
+                continue
+            v = ("v", d["name"], d["id"])
+            if self.ren:
+                v = self._rn(v)
+            t = self._ty(d.get("ty", ""))
+            # the variable is fresh: only facts about the variable itself are stale (facts a rule assumed about what it points
+            # to are about its value after this initialisation)
+            cs = self._kill(cs, lambda x, v=v: x == v)
+            if t.get("kind") not in INT_KINDS and t.get("kind") != "ptr":
+                continue
+            if t.get("kind") == "ptr" and (self._ty(t.get("pointee", "")).get("size") or 0) != 1:
+                continue
+            if self.track is not None and not self.track(v):
+                continue
+            r = self.lin(rhs, frozenset(c for c in cs if isinstance(c, tuple)))
+            if r is None or v in r.vars():
+                continue
+            src_sz = self._ty(rhs.ty).get("size", 0)
+            if t.get("kind") in INT_KINDS and src_sz > t.get("size", 8) and not r.is_const():
+                continue
+            if t.get("kind") in INT_KINDS and t.get("signed") is False:
+                self.unsigned.add(v)
+            self.vtype.setdefault(v, t.get("canon") or d.get("ty"))
+            cs = cs + cons("==", Lin.var(v), r)
+        s2 = _simplify(cs)
+        if s2 is False:
+            return None
+        return frozenset(s2)
 
     def _assign(self, st, e):
         cs = list(st)
@@ -763,6 +815,22 @@ class Analysis:
                         c = le0(_lin_of_con(hs[i]) + _lin_of_con(hs[j]))
                         if isinstance(c, tuple) and c not in keep and self._entailsP(Y, [c]):
                             keep.append(c)
+        # template constraints x <= y between two variables of both sides (what both imply without either stating it):
+        # this is what carries "cursor <= end" through a loop whose body re-derives it differently on every iteration
+        va, vb = self._vars(a), self._vars(b)
+        common = sorted((v for v in va & vb if not (isinstance(v, tuple) and v and v[0] == "$ret")), key=repr)
+        if 2 <= len(common) <= 10:
+            ka = set(keep)
+            for x in common:
+                for y in common:
+                    if x is y:
+                        continue
+                    c = le0(Lin.var(x) - Lin.var(y))
+                    if c in ka:
+                        continue
+                    if self._entailsP(a, [c]) and self._entailsP(b, [c]):
+                        keep.append(c)
+                        ka.add(c)
         r = _simplify(keep)
         return frozenset(r if r is not False else [])
 
